@@ -258,34 +258,41 @@ func TestC18(t *testing.T) { core.Run(t, propC18) }
 
 // ---- C19 -------------------------------------------------------------------------------------
 
-var profRegular = mux.Profile{Name: "regular", Variants: []int{mux.VariantLL}, LeadUnits: [2]int{60, 400}, MaxAudio: 1, ConstantLL: true, ParamRate: 2}
+var profRegular = mux.Profile{Name: "regular", Variants: []int{mux.VariantLL}, LeadUnits: [2]int{60, 400}, MaxAudio: 1, ConstantLL: true, MultiAU: true, MoreAudioLed: true, ParamRate: 2}
 
 // constantLeadTicks returns the constant distance between consecutive leading units (0 if not constant).
 func constantLeadTicks(sc mux.Script) int64 {
 	lead := sc.Config.LeadingTrack()
 	spec := sc.Config.Tracks[lead]
 	var prev int64
+	var prevN int64 = 1
 	var d int64 = -1
 	first := true
 	for _, op := range sc.Ops {
 		if op.Track != lead || op.Kind == mux.KindParamOnly || op.Kind == mux.KindSEI {
 			continue
 		}
-		n := op.N
+		n := int64(op.N)
 		if n < 1 {
 			n = 1
 		}
-		if !spec.IsVideo() && n != 1 {
+		if !spec.IsVideo() && n != 1 && spec.Codec != "aac" {
 			return 0
 		}
 		if !first {
-			if d >= 0 && op.TS-prev != d {
+			// a write of k access units advances the clock by k sample durations
+			if (op.TS-prev)%prevN != 0 {
 				return 0
 			}
-			d = op.TS - prev
+			step := (op.TS - prev) / prevN
+			if d >= 0 && step != d {
+				return 0
+			}
+			d = step
 		}
 		first = false
 		prev = op.TS
+		prevN = n
 	}
 	if d <= 0 {
 		return 0
